@@ -3,5 +3,6 @@ package props
 
 import (
 	_ "verifharness/props/c10"
+	_ "verifharness/props/c11"
 	_ "verifharness/props/c14"
 )
